@@ -15,7 +15,7 @@ def Ty.NoAlias (t : Ty) : Prop :=
   | .tuple ts _ => ∀ t', ∀ (_ : t' ∈ ts), Ty.NoAlias t'
   | .struct ms => ∀ m, ∀ (_ : m ∈ ms), Ty.NoAlias m.2.2
   | .variant ts => ∀ t', ∀ (_ : t' ∈ ts), Ty.NoAlias t'
-  | .optional t' | .notUndef t' | .sensitive t' | .typ t' | .iterable t' => Ty.NoAlias t'
+  | .optional t' | .notUndef t' | .sensitive t' | .iterator t' | .typ t' | .iterable t' => Ty.NoAlias t'
   | _ => True
 termination_by t.w
 decreasing_by
@@ -244,6 +244,9 @@ theorem asg_refl : ∀ (n : Nat) (a : Ty), a.w ≤ n → Ty.WF cfg a → a.NoAli
       unfold Ty.WF at hwf; unfold Ty.NoAlias at hna; simp only [Ty.w] at hw
       apply viaRecv rfl; unfold asgRecv; simp [ih x (by omega) hwf hna]
     | sensitive x =>
+      unfold Ty.WF at hwf; unfold Ty.NoAlias at hna; simp only [Ty.w] at hw
+      apply viaRecv rfl; unfold asgRecv; simp [ih x (by omega) hwf hna]
+    | iterator x =>
       unfold Ty.WF at hwf; unfold Ty.NoAlias at hna; simp only [Ty.w] at hw
       apply viaRecv rfl; unfold asgRecv; simp [ih x (by omega) hwf hna]
     | iterable x =>
